@@ -223,6 +223,23 @@ def check_model(spec, stats, failures):
                 done += 1
             if done:
                 cl.append("costed-through-synthesised-instruction")
+            if done and isa != "x86" and not is_isa:
+                # the same instruction with a lane shape on every register the entry leaves un-shaped: it need not
+                # match any form, but looking it up must end in a form or in "unknown", never in an exception
+                import re as _re
+                t0 = entries.entry_text(isa, str(ename), ops, 0)
+                t1 = _re.sub(r"\bp(\d+)(?:/[mz])?(?![\w./])", r"p\1.d", t0)
+                t1 = _re.sub(r"\bz(\d+)(?![\w.])", r"z\1.d", t1)
+                t1 = _re.sub(r"\bv(\d+)(?![\w.])", r"v\1.2d", t1)
+                if t1 != t0:
+                    try:
+                        nline = parser.parse_line(t1, 1)
+                    except Exception:
+                        nline = None
+                    if nline is not None and nline.mnemonic is not None:
+                        guard(sem.assign_src_dst, nline, what="assign_src_dst(%s)" % t1)
+                        guard(sem.assign_tp_lt, nline, what="assign_tp_lt(%s)" % t1)
+                        cl.append("shaped-variant-of-unshaped-entry-looked-up")
         except Violation as v:
             if v.bucket.startswith("crash"):
                 v.bucket = name + ":" + v.bucket
